@@ -33,6 +33,21 @@ CHECKS = {
         "applications obey ASGI; in-memory transport models; 'only if' direction for trailers",
         "DESIGN.md §4 C02",
     ),
+    "C17": (
+        "exploration",
+        "Hypothesis-generated requests x WSGI application shapes through WSGIWrapper, the WSGI "
+        "middlewares and TaskGroup.spawn_app; oracle = PEP 3333 reference environ/response + "
+        "call/close/thread counters",
+        "Each generated request (escaped and non-ASCII paths under root_path prefixes, repeated "
+        "headers, bodies split into messages, sizes around the limit) against each of 10 WSGI "
+        "application shapes: environ compared with a reference built from the request, status / "
+        "headers / body compared with what the application produced, exactly one call (off the "
+        "loop thread on the threaded runners), close() exactly once, 400 beyond the limit, "
+        "WebSocket refused.",
+        "bulk cases replace the thread hand-off by synchronous stand-ins; real threads are used "
+        "for a sample through both middlewares and both workers' TaskGroup",
+        "DESIGN.md §4 C17",
+    ),
     "C19": (
         "exploration",
         "Hypothesis property tests (loader agreement, CLI flag table, bind sockets, IMF-fixdate "
@@ -44,6 +59,19 @@ CHECKS = {
         "hypercorn.run.run replaced by a recorder; loopback addresses bindable; flag table "
         "transcribed from docs/how_to_guides/configuring.rst",
         "DESIGN.md §4 C19",
+    ),
+    "C20": (
+        "exploration",
+        "Hypothesis property tests: ProxyFix against a reference model + metamorphic "
+        "attacker-prefix invariance + caller-scope immutability; Dispatcher routing model and "
+        "lifespan fan-out with scripted mounts under virtual time; Redirect location model",
+        "Generated forwarding-header lists (several lines, comma lists, spaces, legacy and RFC "
+        "7239) x trusted_hops 0..4 x mode; ordered mount tables x paths; 1..4 lifespan mounts "
+        "with delays and hangs on both dispatcher variants; redirect scopes x host sources x "
+        "root_path x raw_path x query x HTTP version.",
+        "Forwarded elements in canonical lower-case unquoted form; quiescence of the virtual "
+        "loop / MockClock stands for 'never completes'",
+        "DESIGN.md §4 C20",
     ),
 }
 
